@@ -52,3 +52,83 @@ package resharing
 //@   loop 2 invariant forall id :: (maphas(idsMap, id) ==> rsAwaited(round, id))
 //@   loop 2 invariant forall m in 0..len(ids) :: maphas(idsMap, ids[m])
 //@   loop 2 invariant forall id :: (visited(idsMap, id) ==> (exists m in 0..len(ids) :: ids[m] == id))
+
+// ----- the round Start functions -----
+//@ define rsOldN(round) = len(round.ReSharingParameters.Parameters.parties.partyIDs)
+//@ define rsNewN(round) = len(round.ReSharingParameters.newParties.partyIDs)
+//@ define edRsWF(round) = rsWF(round.ReSharingParameters) && isedw(round.ReSharingParameters.Parameters.ec) && round.temp != nil && round.input != nil && round.save != nil && round.out != nil && round.end != nil && len(round.oldOK) == rsOldN(round) && len(round.newOK) == rsNewN(round) && len(round.temp.dgRound1Messages) == rsOldN(round) && len(round.temp.dgRound2Messages) == rsNewN(round) && len(round.temp.dgRound3Message1s) == rsOldN(round) && len(round.temp.dgRound3Message2s) == rsOldN(round) && len(round.temp.dgRound4Messages) == rsNewN(round) && rsOldN(round) <= 1024 && rsNewN(round) <= 1024 && 0 <= round.ReSharingParameters.newThreshold && round.ReSharingParameters.newThreshold < 1024 && round.ReSharingParameters.newPartyCount == rsNewN(round)
+// the own index is an index into the committee(s) this party belongs to
+//@ define edRsIdx(round) = 0 <= round.ReSharingParameters.Parameters.partyID.Index && (rsOld(round.ReSharingParameters) ==> round.ReSharingParameters.Parameters.partyID.Index < rsOldN(round)) && (rsNew(round.ReSharingParameters) ==> round.ReSharingParameters.Parameters.partyID.Index < rsNewN(round))
+//@ define shareIntact(round) = (old(round.input.Xi) != nil ==> val(old(round.input.Xi)) == old(val(round.input.Xi)))
+
+//@ func (*DGRound1Message).UnmarshalVCommitment
+//@   props C06 C16
+//@   requires m != nil
+//@   ensures result != nil && fresh(result) && val(result) >= 0
+//@ func (*DGRound3Message2).UnmarshalVDeCommitment
+//@   props C06 C16
+//@   requires m != nil
+//@   ensures fresh(result) && len(result) == len(m.VDecommitment) && (forall k in 0..len(result) :: (result[k] != nil && val(result[k]) >= 0))
+
+//@ func (*round1).Start
+//@   props C06 C05 C04
+//@   requires round != nil && round.base != nil && edRsWF(round) && edRsIdx(round)
+//@   requires [old-key-data] rsOld(round.ReSharingParameters) ==> (round.input.Xi != nil && val(round.input.Xi) >= 0 && len(round.input.Ks) == rsOldN(round) && (forall k in 0..len(round.input.Ks) :: (round.input.Ks[k] != nil && val(round.input.Ks[k]) >= 0)) && (forall k in 0..len(round.input.Ks) :: (k != round.ReSharingParameters.Parameters.partyID.Index ==> (val(round.input.Ks[k]) != val(round.input.Ks[round.ReSharingParameters.Parameters.partyID.Index]) && gcd(val(round.input.Ks[k]) - val(round.input.Ks[round.ReSharingParameters.Parameters.partyID.Index]), curveN(round.ReSharingParameters.Parameters.ec)) == 1))) && round.input.EDDSAPub != nil && wfPoint(round.input.EDDSAPub))
+//@   modifies *
+//@   ensures [C04.old-share-intact-before-the-final-round] shareIntact(round)
+
+//@ func (*round2).Start
+//@   props C06 C05 C04
+//@   requires round != nil && round.round1 != nil && round.round1.base != nil && edRsWF(round) && edRsIdx(round)
+//@   modifies *
+//@   ensures [C04.old-share-intact-before-the-final-round] shareIntact(round)
+
+//@ func (*round3).Start
+//@   props C06 C05 C04
+//@   requires round != nil && round.round2 != nil && round.round2.round1 != nil && round.round2.round1.base != nil && edRsWF(round) && edRsIdx(round)
+//@   requires [own-dealing-from-round-1] rsOld(round.ReSharingParameters) ==> (len(round.temp.NewShares) == rsNewN(round) && (forall k in 0..len(round.temp.NewShares) :: (round.temp.NewShares[k] != nil && round.temp.NewShares[k].ID != nil && round.temp.NewShares[k].Share != nil)) && (forall k in 0..len(round.temp.VD) :: round.temp.VD[k] != nil))
+//@   modifies *
+//@   ensures [C04.old-share-intact-before-the-final-round] shareIntact(round)
+//@   loop 0 invariant round.started
+
+//@ define rs1slotFull(m) = (!isnil(m) && istype(msgcontent(m), "*eddsa/resharing.DGRound1Message") && cast(msgcontent(m), "*eddsa/resharing.DGRound1Message") != nil)
+//@ define rs3slot1(m) = (!isnil(m) && istype(msgcontent(m), "*eddsa/resharing.DGRound3Message1") && cast(msgcontent(m), "*eddsa/resharing.DGRound3Message1") != nil)
+//@ define rs3slot2(m) = (!isnil(m) && istype(msgcontent(m), "*eddsa/resharing.DGRound3Message2") && cast(msgcontent(m), "*eddsa/resharing.DGRound3Message2") != nil && len(cast(msgcontent(m), "*eddsa/resharing.DGRound3Message2").VDecommitment) <= 8192)
+
+// a de-committed, cofactor-cleared row of Feldman commitments of one old member
+//@ define rs4row(round, s) = (len(s) == round.ReSharingParameters.newThreshold + 1 && (forall c in 0..len(s) :: (validPoint(s[c]) && s[c].curve == round.ReSharingParameters.Parameters.ec)))
+//@ func (*round4).Start
+//@   deadpoints 3
+//@   note the two error branches after ECPoint.Add are unreachable on the Edwards curve (lemma L-edwards-closed)
+//@   props C06 C05 C04
+//@   requires round != nil && round.round3 != nil && round.round3.round2 != nil && round.round3.round2.round1 != nil && round.round3.round2.round1.base != nil && edRsWF(round) && edRsIdx(round)
+//@   requires [rounds-1-and-3-complete] rsNew(round.ReSharingParameters) ==> (forall j in 0..rsOldN(round) :: (rs1slotFull(round.temp.dgRound1Messages[j]) && rs3slot1(round.temp.dgRound3Message1s[j]) && rs3slot2(round.temp.dgRound3Message2s[j])))
+//@   requires [old-committee-nonempty] rsNew(round.ReSharingParameters) ==> rsOldN(round) >= 1
+//@   requires [announced-key-kept] rsNew(round.ReSharingParameters) ==> (round.save.EDDSAPub != nil && wfPoint(round.save.EDDSAPub))
+//@   modifies *
+//@   ensures [C04.old-share-intact-before-the-final-round] shareIntact(round)
+//@   loop 0 invariant round.save.EDDSAPub != nil && wfPoint(round.save.EDDSAPub) && rsNew(round.ReSharingParameters) && 0 <= j && j <= len(vjc) && len(vjc) == rsOldN(round) && fresh(vjc) && newXi != nil && modQ != nil && val(modQ) == curveN(round.ReSharingParameters.Parameters.ec) && shareIntact(round)
+//@   loop 0 invariant forall k in 0..j :: rs4row(round, vjc[k])
+//@   loop 1 invariant round.save.EDDSAPub != nil && wfPoint(round.save.EDDSAPub) && rsNew(round.ReSharingParameters) && 0 <= j && j < len(vjc) && len(vjc) == rsOldN(round) && fresh(vjc) && newXi != nil && modQ != nil && val(modQ) == curveN(round.ReSharingParameters.Parameters.ec) && shareIntact(round)
+//@   loop 1 invariant forall k in 0..j :: rs4row(round, vjc[k])
+//@   loop 1 invariant fresh(vj) && arr(vj) != arr(vjc) && len(vj) == round.ReSharingParameters.newThreshold + 1 && (forall c in 0..len(vj) :: (validPoint(vj[c]) && vj[c].curve == round.ReSharingParameters.Parameters.ec))
+//@   loop 1 invariant forall k in 0..j :: arr(vjc[k]) != arr(vj)
+//@   loop 2 invariant round.save.EDDSAPub != nil && wfPoint(round.save.EDDSAPub) && rsNew(round.ReSharingParameters) && 0 <= c && c <= round.ReSharingParameters.newThreshold + 1 && len(vjc) == rsOldN(round) && fresh(vjc) && len(Vc) == round.ReSharingParameters.newThreshold + 1 && fresh(Vc) && newXi != nil && modQ != nil && val(modQ) == curveN(round.ReSharingParameters.Parameters.ec) && shareIntact(round)
+//@   loop 2 invariant (forall k in 0..len(vjc) :: rs4row(round, vjc[k])) && (forall k in 0..len(vjc) :: arr(vjc[k]) != arr(Vc))
+//@   loop 2 invariant forall k in 0..c :: (validPoint(Vc[k]) && Vc[k].curve == round.ReSharingParameters.Parameters.ec)
+//@   loop 3 invariant round.save.EDDSAPub != nil && wfPoint(round.save.EDDSAPub) && rsNew(round.ReSharingParameters) && 0 <= c && c <= round.ReSharingParameters.newThreshold && 1 <= j && j <= len(vjc) && len(vjc) == rsOldN(round) && fresh(vjc) && len(Vc) == round.ReSharingParameters.newThreshold + 1 && fresh(Vc) && newXi != nil && modQ != nil && val(modQ) == curveN(round.ReSharingParameters.Parameters.ec) && shareIntact(round)
+//@   loop 3 invariant (forall k in 0..len(vjc) :: rs4row(round, vjc[k])) && (forall k in 0..len(vjc) :: arr(vjc[k]) != arr(Vc))
+//@   loop 3 invariant forall k in 0..c+1 :: (validPoint(Vc[k]) && Vc[k].curve == round.ReSharingParameters.Parameters.ec)
+//@   loop 4 invariant wfIDs(round.ReSharingParameters.Parameters.parties.partyIDs) && wfIDs(round.ReSharingParameters.newParties.partyIDs) && round.save.EDDSAPub != nil && wfPoint(round.save.EDDSAPub) && rsNew(round.ReSharingParameters) && 0 <= j && j <= rsNewN(round) && len(Vc) == round.ReSharingParameters.newThreshold + 1 && fresh(Vc) && fresh(newKs) && len(newKs) == j && cap(newKs) == rsNewN(round) && fresh(newBigXjs) && len(newBigXjs) == rsNewN(round) && fresh(culprits) && newXi != nil && modQ != nil && val(modQ) == curveN(round.ReSharingParameters.Parameters.ec) && shareIntact(round)
+//@   loop 4 invariant forall k in 0..len(Vc) :: (validPoint(Vc[k]) && Vc[k].curve == round.ReSharingParameters.Parameters.ec)
+//@   loop 5 invariant wfIDs(round.ReSharingParameters.Parameters.parties.partyIDs) && wfIDs(round.ReSharingParameters.newParties.partyIDs) && round.save.EDDSAPub != nil && wfPoint(round.save.EDDSAPub) && rsNew(round.ReSharingParameters) && 0 <= j && j < rsNewN(round) && 1 <= c && c <= round.ReSharingParameters.newThreshold + 1 && len(Vc) == round.ReSharingParameters.newThreshold + 1 && fresh(Vc) && fresh(newKs) && len(newKs) == j + 1 && cap(newKs) == rsNewN(round) && fresh(newBigXjs) && len(newBigXjs) == rsNewN(round) && fresh(culprits) && newXi != nil && modQ != nil && val(modQ) == curveN(round.ReSharingParameters.Parameters.ec) && shareIntact(round)
+//@   loop 5 invariant forall k in 0..len(Vc) :: (validPoint(Vc[k]) && Vc[k].curve == round.ReSharingParameters.Parameters.ec)
+//@   loop 5 invariant kj != nil && val(kj) >= 0 && z != nil && val(z) >= 0 && Pj != nil && validPoint(newBigXj) && newBigXj.curve == round.ReSharingParameters.Parameters.ec
+
+//@ func (*round5).Start
+//@   props C06 C04
+//@   requires round != nil && round.round4 != nil && round.round4.round3 != nil && round.round4.round3.round2 != nil && round.round4.round3.round2.round1 != nil && round.round4.round3.round2.round1.base != nil && edRsWF(round) && edRsIdx(round)
+//@   requires [old-member-holds-a-share] (rsOld(round.ReSharingParameters) && !rsNew(round.ReSharingParameters)) ==> round.input.Xi != nil
+//@   modifies *
+//@   ensures [C04.a-continuing-member-keeps-its-old-share] (rsNew(round.ReSharingParameters) && old(round.input.Xi) != nil && old(round.input.Xi) != old(round.temp.newXi)) ==> val(old(round.input.Xi)) == old(val(round.input.Xi))
+//@   ensures [C04.key-data-emitted-exactly-once] result == nil ==> sent(old(round.end)) == old(sent(round.end)) + 1
